@@ -277,3 +277,45 @@ Proof.
     replace (cap13 <? S f) with true by (symmetry; apply Nat.ltb_lt; lia). reflexivity. }
   rewrite Hw. reflexivity.
 Qed.
+
+(* ---------- both directions: sending never touches what the sender has received ---------- *)
+Section D.
+  Variable clamp cap : option nat.
+  Variable allow_empty refuse : bool.
+
+  Theorem dsend_keeps_incoming d client inp d' n :
+    dsend clamp cap allow_empty refuse d client inp = Ok (d', n) -> incoming d' client = incoming d client.
+  Proof.
+    unfold dsend. destruct (refuse && has_pending d client); [discriminate|].
+    destruct (send1 _ _ _ _ _) as [[x m]| |]; try discriminate. intros [= <- <-].
+    destruct client; reflexivity.
+  Qed.
+  Theorem dwrite_keeps_incoming d client inp d' ns :
+    dwrite clamp cap allow_empty refuse d client inp = Ok (d', ns) -> incoming d' client = incoming d client.
+  Proof.
+    unfold dwrite. destruct inp as [|b inp']; [intros [= <- <-]; reflexivity|].
+    destruct (refuse && has_pending d client); [discriminate|].
+    destruct (write_all _ _ _ _ _ _) as [[x m]| |]; try discriminate. intros [= <- <-].
+    destruct client; reflexivity.
+  Qed.
+  (* receiving never touches what the receiver is sending *)
+  Theorem drecv_keeps_outgoing d client outlen d' data :
+    drecv d client outlen = Ok (d', data) -> outgoing d' client = outgoing d client.
+  Proof.
+    unfold drecv. destruct (recv1 _ _) as [[x m]| |]; try discriminate. intros [= <- <-].
+    destruct client; reflexivity.
+  Qed.
+End D.
+
+(* TLCP / TLS 1.2 (shared conn->databuf): a send while received data is still buffered is refused *)
+Theorem tls12_send_refused_while_pending d client inp :
+  has_pending d client = true -> dsend (Some max_plain) None false true d client inp = Err.
+Proof. intros H. unfold dsend. rewrite H. reflexivity. Qed.
+(* TLS 1.3: a partially read record survives a write on the same endpoint: the rest of it is what
+   the next receive calls deliver *)
+Theorem tls13_write_keeps_partial_record d client inp d' ns outlen :
+  dwrite (Some max_plain) None true false d client inp = Ok (d', ns) ->
+  drecv d' client outlen = match recv1 (incoming d client) outlen with
+                           | Ok (x, data) => Ok (set_incoming d' client x, data)
+                           | Err => Err | Fault => Fault end.
+Proof. intros H. unfold drecv. rewrite (dwrite_keeps_incoming _ _ _ _ _ _ _ _ _ H). reflexivity. Qed.
